@@ -554,8 +554,11 @@ class Machine:
                 raise Raised('TypeError')
             sub = Machine(env, self.stubs, resolver)
             sub.steps = self.steps
-            is_gen = any(isinstance(x, (ast.Yield, ast.YieldFrom))
-                         for x in au.walk_no_defs(fn))
+            is_gen = getattr(fn, '_dd_is_gen', None)
+            if is_gen is None:
+                is_gen = fn._dd_is_gen = any(
+                    isinstance(x, (ast.Yield, ast.YieldFrom))
+                    for x in au.walk_no_defs(fn))
             if is_gen:
                 # a generator function: its body is run now and what it
                 # yields is handed out afterwards (the elements are the
